@@ -11,3 +11,4 @@ pub mod c05inv;
 pub mod cgen;
 pub mod scan;
 pub mod builder_ops;
+pub mod postcanon;
